@@ -31,6 +31,14 @@ def rand_fixture(rng, pf, name, params=(), **kw):
     autouse = rng.random() < 0.15
     body = ("yield 1",) if rng.random() < 0.3 else ("return 1",)
     doc = "doc of %s" % name if rng.random() < 0.3 else None
+    if "ret" not in kw:
+        # a return annotation, chosen without drawing from the PRNG (the case stream stays what it was):
+        # same-named fixtures in different files get different types, so `which definition` shows in
+        # hover / inlay hints / completion detail
+        k = (len(pf.lines) + len(name) + len(params)) % 5
+        kw["ret"] = (None, "int", "str", None, "Dict[str, int]")[k]
+        if kw["ret"] and body[0].startswith("yield"):
+            kw["ret"] = "Generator[%s, None, None]" % kw["ret"]
     return pf.fixture(name, params=params, scope=scope, autouse=autouse, body=body, doc=doc, **kw)
 
 
